@@ -7,7 +7,7 @@ from __future__ import annotations
 import ast
 
 from ..engine import Analysis
-from ..model import AnalysisError, FuncInfo, dotted, norm, walk_own, parents, kwarg, is_within
+from ..model import AnalysisError, FuncInfo, dotted, norm, walk_own, parents, kwarg, is_within, rejecting_guards, always_raises
 from ..report import Collector
 from . import prop
 
@@ -63,8 +63,26 @@ def _container_steps(A: Analysis, fn: FuncInfo) -> dict:
     for c in A.calls(fn):
         if any(q.endswith("environments.base.execute") for q in A.callee_names(c, fn)):
             facts["execute_call"] = c
-    facts["raises_on_rc"] = any(isinstance(n, ast.If) and "return_code" in norm(n.test) and any(isinstance(k, ast.Raise) for k in ast.walk(n)) for n in walk_own(fn.node))
+    facts["raises_on_rc"] = _raises_on_return_code(fn)
     return facts
+
+
+def _raises_on_return_code(fn: FuncInfo) -> bool:
+    """an `if` on the return code alone (truthiness, `!= 0`, `> 0`; no narrowing conjunct) whose every
+    path raises."""
+
+    def is_rc(k):
+        return (isinstance(k, ast.Name) and k.id == "return_code") or (isinstance(k, ast.Constant) and k.value == "return_code")
+
+    for g, extra in rejecting_guards(fn.node, is_rc):
+        if extra:
+            continue
+        t = g.test
+        if isinstance(t, (ast.Name, ast.Subscript)):
+            return True
+        if isinstance(t, ast.Compare) and len(t.ops) == 1 and isinstance(t.ops[0], (ast.NotEq, ast.Gt)) and isinstance(t.comparators[0], ast.Constant) and t.comparators[0].value == 0:
+            return True
+    return False
 
 
 @prop(
@@ -341,7 +359,7 @@ def check_c39(A: Analysis, col: Collector):
                 col.ok("C39.argv", "the list executed is exactly the argv built", A.loc(c))
             else:
                 col.fail("C39.argv", ex.qualname, "executed-argv-modified", "the list handed to base.execute is not exactly the result of _command_args", A.loc(c))
-    rc = any(isinstance(n, ast.If) and "return_code" in norm(n.test) and any(isinstance(k, ast.Raise) for k in ast.walk(n)) for n in walk_own(ex.node))
+    rc = _raises_on_return_code(ex)
     if rc:
         col.ok("C39.argv", "a non-zero return code raises", A.loc(ex.node))
     else:
